@@ -113,6 +113,9 @@ MUTANTS = [
     ("e09", PP + "model_property.py", "            required_set.update(sub_prop.required or [])", "            pass", ["C15", "C10"]),
     ("e10", P + "parser/openapi.py", "            requires_security=bool(data.security),", "            requires_security=False,", ["C03"]),
     ("e11", T + "endpoint_macros.py.jinja", "{% if endpoint.requires_security %}", "{% if false %}", ["C03"]),
+    ("f01", P + "parser/openapi.py", "        if parameters_from_path != [param.name for param in endpoint.path_parameters]:", "        if len(parameters_from_path) != len(endpoint.path_parameters):", ["C03"]),
+    ("f02", P + "parser/openapi.py", "                key=lambda param: parameters_from_path.index(param.name),", "                key=lambda param: parameters_from_path.index(param.python_name),", ["C03"]),
+    ("f03", P + "parser/openapi.py", "        endpoint = deepcopy(endpoint)\n        parameters_from_path", "        parameters_from_path", ["C03"]),
     ("d07", PP + "schemas.py", "        for name, existing in self.classes_by_name.items():\n            other =", "        for name, existing in list(self.classes_by_name.items())[1:]:\n            other =", ["C09"]),
 ]
 
